@@ -13,6 +13,39 @@ mod refmodel;
 use explore::{Report, Tier};
 use serde_json::Value;
 
+/// The allocator is part of the environment, and the only promise it makes is the alignment the
+/// layout asks for. The system allocator happens to return 16-byte aligned blocks for everything, so
+/// code that silently relies on that (splitting a `Vec<[f32; 3]>` with `align_to` and dropping the
+/// "impossible" unaligned head, SIMD loads from a Vec) is never exercised. This allocator returns, for
+/// every layout with an alignment below 16, an address that has exactly the requested alignment and
+/// not more (16k + align), which is what an arena, a bump allocator or a 32-bit target may do.
+struct MinimalAlign;
+
+unsafe impl std::alloc::GlobalAlloc for MinimalAlign {
+    unsafe fn alloc(&self, l: std::alloc::Layout) -> *mut u8 {
+        if l.align() >= 16 {
+            return std::alloc::System.alloc(l);
+        }
+        let Ok(big) = std::alloc::Layout::from_size_align(l.size() + 16, 16) else { return std::ptr::null_mut() };
+        let p = std::alloc::System.alloc(big);
+        if p.is_null() {
+            p
+        } else {
+            p.add(l.align())
+        }
+    }
+    unsafe fn dealloc(&self, p: *mut u8, l: std::alloc::Layout) {
+        if l.align() >= 16 {
+            std::alloc::System.dealloc(p, l)
+        } else {
+            std::alloc::System.dealloc(p.sub(l.align()), std::alloc::Layout::from_size_align_unchecked(l.size() + 16, 16))
+        }
+    }
+}
+
+#[global_allocator]
+static ALLOC: MinimalAlign = MinimalAlign;
+
 fn run_prop(id: &str, tier: Tier) -> Option<Report> {
     Some(match id {
         "C01" => props::c01::run(tier),
